@@ -38,6 +38,7 @@ def modes : List Mode := []
   ++ [Drv.TableApi.mode]
   ++ [Drv.T2Db.mode]
   ++ Drv.C15.modes
+  ++ [Drv.Lib1.mode, Drv.Lib1.oracle]
 
 def dispatch (line : String) : String :=
   match tokens line with
